@@ -43,6 +43,12 @@ UP_A = synth.make_file(kind='audio', timescale=48000, track_id=2, durations=(480
 UP_E = synth.make_file(kind='video', timescale=1000, durations=(1000, 1000, 1000), file_id=43, encrypted=True,
                        iv_size=8, subsamples=True)
 UP_V2 = synth.make_file(kind='video', timescale=1000, durations=(2000, 1000, 1000), file_id=44)
+# the same file with the language 'xxx' in its mdhd (no valid tag): indexing succeeds and commits a media_file_error
+# row (INVALID_LANGUAGE_TAG). The rows of a failed indexing are reported but never committed by the index endpoint,
+# so this is the way a stored file comes to own error rows.
+_i = UP_V.find(b'mdhd') - 4
+assert _i > 0 and UP_V[_i + 28:_i + 30] == bytes.fromhex('55c4')
+UP_BAD = UP_V[:_i + 28] + bytes.fromhex('6318') + UP_V[_i + 30:]
 
 
 class Env:
@@ -252,6 +258,21 @@ def _(env, I, T):
 @action('upload cenc video upl_v9_enc to synirr')
 def _(env, I, T):
     return _upload(env, I, T, 'synirr', 'upl_v9_enc.mp4', UP_E, 'video/mp4')
+
+
+@action('upload upl_bad (language xxx) to synirr and index it (leaves an error row)', True)
+def _(env, I, T):
+    r = _upload(env, I, T, 'synirr', 'upl_bad.mp4', UP_BAD, 'video/mp4')
+    I2 = env.lookup()
+    if 'upl_bad' in I2['files']:
+        _req(env, 'GET', f'/media/index/{_mf(I2, "upl_bad")[0]}?ajax=1&csrf_token={env.tokens()["files"]}')
+    return r
+
+
+@action('delete media upl_bad, a file with an error row (DELETE)', True)
+def _(env, I, T):
+    mfid, spk = _mf(I, 'upl_bad')
+    return _req(env, 'DELETE', f'/stream/{spk}/{mfid}?ajax=1&csrf_token={T["files"]}')
 
 
 @action('index upl_v9', True)
@@ -647,7 +668,7 @@ def _stream_service(env, s, acc):
     return out
 
 
-KNOWN_UPLOADS = {'upl_v9': (UP_V, UP_V2), 'upl_a9': (UP_A,), 'upl_v9_enc': (UP_E,)}
+KNOWN_UPLOADS = {'upl_v9': (UP_V, UP_V2), 'upl_a9': (UP_A,), 'upl_v9_enc': (UP_E,), 'upl_bad': (UP_BAD,)}
 
 
 def _stream_readback(env, R, s, spk, acc):
